@@ -169,6 +169,63 @@ fn classify_invalid(why: &str) -> String {
     "output_does_not_validate".into()
 }
 
+/// Pattern check that is independent of how deep the format sits in the schema: the output becomes
+/// valid when nothing but the leap second (:60 -> :59) / the day (02-29 -> 02-28) is changed.
+fn classify_by_repair(judge: &Judge, out: &[u8]) -> Option<String> {
+    let text = std::str::from_utf8(out).ok()?;
+    let b = text.as_bytes();
+    let dig = |i: usize| b.get(i).is_some_and(|c| c.is_ascii_digit());
+    let mut leap = String::new();
+    let mut feb = String::new();
+    let mut both = String::new();
+    let (mut n_leap, mut n_feb) = (0, 0);
+    let mut i = 0;
+    while i < b.len() {
+        // hh:mm:60
+        if i >= 5 && b[i..].starts_with(b":60") && dig(i - 1) && dig(i - 2) && b[i - 3] == b':' && dig(i - 4) && dig(i - 5) {
+            leap.push_str(":59");
+            both.push_str(":59");
+            feb.push_str(":60");
+            n_leap += 1;
+            i += 3;
+            continue;
+        }
+        // yyyy-02-29
+        if i >= 4 && b[i..].starts_with(b"-02-29") && dig(i - 1) && dig(i - 2) && dig(i - 3) && dig(i - 4) {
+            feb.push_str("-02-28");
+            both.push_str("-02-28");
+            leap.push_str("-02-29");
+            n_feb += 1;
+            i += 6;
+            continue;
+        }
+        // copy one UTF-8 character
+        let l = match b[i] {
+            0..=0x7F => 1,
+            0xC0..=0xDF => 2,
+            0xE0..=0xEF => 3,
+            _ => 4,
+        }
+        .min(b.len() - i);
+        let ch = &text[i..i + l];
+        leap.push_str(ch);
+        feb.push_str(ch);
+        both.push_str(ch);
+        i += l;
+    }
+    let valid = |t: &str| matches!(judge.judge_text(t.as_bytes()), Judgement::Valid);
+    if n_leap > 0 && valid(&leap) {
+        return Some("format_leap_second_at_arbitrary_time".into());
+    }
+    if n_feb > 0 && valid(&feb) {
+        return Some("format_date_feb29_in_non_leap_year".into());
+    }
+    if n_leap > 0 && n_feb > 0 && valid(&both) {
+        return Some("format_leap_second_at_arbitrary_time".into());
+    }
+    None
+}
+
 fn accepts_complete(m0: &Matcher, text: &[u8]) -> bool {
     let mut m = m0.clone();
     for &b in text {
@@ -274,7 +331,8 @@ fn run_case(ctx: &mut Ctx, idx: u64, v1: &Vocab) {
             Judgement::Invalid(why) => {
                 let d = json!({"schema": schema, "vocab": v.name, "output": bytes_dbg(&out), "why": why, "tokens": toks});
                 let rp = ctx.replay(idx);
-                ctx.rep.violation(&classify_invalid(&why), &tags, d, rp);
+                let kind = classify_by_repair(&judge, &out).unwrap_or_else(|| classify_invalid(&why));
+                ctx.rep.violation(&kind, &tags, d, rp);
                 return;
             }
             Judgement::Inconclusive(why) => {
